@@ -8,6 +8,12 @@ COMMON_TRUSTED = [
     "Go toolchain go1.23.5",
 ]
 
+LOCKX = [dict(exe="lockx", args=["/repo", "/verif/lean/Avfs/Generated/Locks.lean"])]
+CLEAN = "mkdir,mkdirall,writefile,readfile,stat,lstat,readdir,chmod,truncate,open,fileop,chtimes,chown"
+RACE_CFG = [("memidm", "", 2), ("memfs", CLEAN, 3), ("memfs", "mkdir,remove", 2), ("orefafs", "mkdir,remove", 2), ("memfs", "link,remove", 2),
+            ("orefafs", "rename", 2), ("memfs", "remove,writefile,stat", 2), ("orefafs", "remove,writefile,stat", 2)]
+CONC_TRUST = ["translator harness/cmd/lockx (go/ast; intra-procedural must-held lockset: sequential flow, intersection at joins, defers; aliases through := and type assertions; fails closed on constructs it does not know); that the extracted facts over-approximate the real accesses is trusted",
+              "Go memory model DRF-SC (reasoning at lock granularity)", "the race detector and free-running schedules are a search engine only"]
 FACTX = [dict(exe="factx", args=["/repo", "/verif/lean/Avfs/Generated/Wrap.lean"])]
 MODEL_TRUST = ["modelled, not verified: Go maps and slices as association lists / lists, time.Now (modification times are compared only where Chtimes set them), math/rand temp names (taken from the implementation's answer)",
                "the MemFS model is hand-written from vfs/memfs/*.go and vfs.go; tied by corr memfs* (call results + internal node graph through the verif hook after every call)"]
@@ -34,7 +40,27 @@ PROPS = {
         assumptions=["sequential histories (concurrent executions: C06)", "views whose root directory has been removed through another view are outside the theorem (kernel-checked witness C05_detached_view_witness)"],
         not_yet_proved=["RenameSafe (the path-prefix test of Rename implies the graph condition)", "wfCheck ↔ WF", "frame property (a successful call changes only the entries it names)", "OrefaFS"],
     ),
+    "C06": dict(
+        props_files=["Avfs/Props/C06.lean"],
+        translators=LOCKX,
+        parts=[],
+        race=RACE_CFG,
+        trusted=CONC_TRUST,
+        assumptions=["proved part: operations that are one critical section (OrefaFS Mkdir/MkdirAll/Remove/RemoveAll, all MemIdm operations but AddUser)"],
+        not_yet_proved=["linearizability of MemFS's lock-free walk + re-validation (exclusive creates: one winner)", "deterministic schedule exploration (cmd/sched) is not built: counter-schedules of the ledger are reproduced by free-running stress only"],
+    ),
+    "C08": dict(
+        props_files=["Avfs/Props/C08.lean"],
+        translators=LOCKX,
+        parts=[],
+        race=RACE_CFG,
+        trusted=CONC_TRUST,
+        assumptions=["the guard map: node fields by the node's mu, handle fields by the handle's mu, OrefaFS.nodes by vfs.mu, idm maps and counters by grpMu / usrMu; name, id, vfs, openMode immutable after construction"],
+        not_yet_proved=["lockset_sound: facts satisfied ⇒ every trace of the functions is Disciplined (the bridge between the extracted facts and the trace semantics is the translator's meaning, not a theorem)"],
+    ),
     "C07": dict(
+        translators=LOCKX,
+        race=[("memidm", "", 2), ("memfs", CLEAN, 2), ("memfs", "mkdir,remove", 2), ("orefafs", "mkdir,remove", 2)],
         props_files=["Avfs/Props/C07.lean"],
         parts=[dict(name="memfs"), dict(name="memfs-files"), dict(name="path", tags="verif,avfs_setostype")],
         trusted=MODEL_TRUST,
